@@ -461,6 +461,7 @@ func (p *Package) newValueDecl(
 			continue
 		}
 		if typ != nil && tok == token.VAR {
+			p.useName(name) // a declaration without initializer never reaches EndInit
 			if old := scope.Insert(types.NewVar(pos, p.Types, name, typ)); old != nil {
 				allowRedecl := p.allowRedecl && scope == p.Types.Scope()
 				if !(allowRedecl && types.Identical(old.Type(), typ)) { // for c2go
